@@ -666,6 +666,7 @@ static bool run_case(const Toks &t, Out &o)
 int main(int argc, char **argv)
 {
   opentelemetry::sdk::common::internal_log::GlobalLogHandler::SetLogLevel(opentelemetry::sdk::common::internal_log::LogLevel::None);
+  std::cout.setf(std::ios::unitbuf);   // one write per observation: a sanitizer report lands behind the last completed case
   return verif::run_cases(argc, argv, [](const Toks &t, Out &o) {
     if (!run_case(t, o)) { o.line.clear(); o.tag("BADCASE"); }
   });
